@@ -110,6 +110,13 @@ func genDrvQuery(r *simrt.Rand, q *Query, placeholderPM int) DrvQuery {
 		j := r.Intn(i + 1)
 		perm[i], perm[j] = perm[j], perm[i]
 	}
+	if nleaf >= 2 && r.Chance(1, 3) {
+		// repeated placeholders: several leaves share one number (and therefore one argument)
+		k := r.Range(1, nleaf-1)
+		for i := range perm {
+			perm[i] = 1 + r.Intn(k)
+		}
+	}
 	gap := 0
 	if r.Chance(1, 5) {
 		gap = r.Range(1, 2)
